@@ -197,14 +197,22 @@ ENS_PREFIX_KEPT(buf)
 
 #define ADV_OK_OLD(c, n) (OLD((c)->len) <= SIZE_HALF && (n) <= SIZE_HALF && (n) <= OLD((c)->len))
 
+/* VERIF_ADVANCE_HUGE: also views longer than any object (unbacked), to reach lengths next to SIZE_MAX/2 */
+#ifdef VERIF_ADVANCE_HUGE
+#    define ADVANCE_CUR_REQ CUR_OK_OR_HUGE(cursor)
+#    define APEQ(p, q) ((p) == (q)) /* unbacked pointers are not valid: plain equality (the enforcing unit needs no value set) */
+#else
+#    define ADVANCE_CUR_REQ CUR_OK(cursor)
+#    define APEQ(p, q) PEQ(p, q)
+#endif
 #define ADVANCE_CONTRACT                                                                                               \
-    __CPROVER_requires(CUR_OK(cursor))                                                                                 \
+    __CPROVER_requires(ADVANCE_CUR_REQ)                                                                                \
     __CPROVER_assigns(ADV_OK(cursor, len) : cursor->ptr, cursor->len)                                                  \
-    __CPROVER_ensures(ADV_OK_OLD(cursor, len) ==> PEQ(RET.ptr, OLD(cursor->ptr)) && RET.len == len &&                    \
+    __CPROVER_ensures(ADV_OK_OLD(cursor, len) ==> APEQ(RET.ptr, OLD(cursor->ptr)) && RET.len == len &&                    \
                       cursor->len == OLD(cursor->len) - len &&                                                         \
-                      PEQ(cursor->ptr, (OLD(cursor->ptr) == NULL ? NULL : OLD(cursor->ptr) + len)))                       \
+                      APEQ(cursor->ptr, (OLD(cursor->ptr) == NULL ? NULL : OLD(cursor->ptr) + len)))                       \
     __CPROVER_ensures(!ADV_OK_OLD(cursor, len) ==> RET.ptr == NULL && RET.len == 0 &&                                 \
-                      cursor->len == OLD(cursor->len) && PEQ(cursor->ptr, OLD(cursor->ptr)))
+                      cursor->len == OLD(cursor->len) && APEQ(cursor->ptr, OLD(cursor->ptr)))
 
 struct aws_byte_cursor aws_byte_cursor_advance(struct aws_byte_cursor *const cursor, const size_t len)
 ADVANCE_CONTRACT
@@ -785,7 +793,7 @@ __CPROVER_ensures(source->len == 0 ==> RET)
  *   true  ==> lengths equal and byte g_j (arbitrary witness) equal            [= "one differing byte ==> false"]
  *   false ==> lengths differ, or the byte at the reported position g_mm differs   (memcmp-based functions only: the
  *             position comes out of the assumed memcmp contract; for the hand-written loops the existential
- *             "false ==> some byte differs" is NOT stated, see units.json not_decided and the bounded units eq_*_bounded)
+ *             "false ==> some byte differs" is NOT stated, see units.json not_decided and the bounded unit eq_loops_bounded)
  */
 #define ARR_OK(p, n) (((n) == 0 && (p) == NULL) || __CPROVER_is_fresh((p), (n)))
 
@@ -1005,7 +1013,10 @@ __CPROVER_ensures((list->current_size == OLD(list->current_size) && PEQ(list->da
 ;
 
 /* one of the two multi-part operations of the property (may stop part-way when the list fills up):
- * validity + frame + count.  Only the list is written; the input is read only inside its length. */
+ * validity + frame + count.  Only the list is written; the input is read only inside its length.
+ * NOT ENFORCED: CBMC 6.11 does not finish the proof of aws_byte_cursor_split_on_char_n against this contract (loop contract in
+ * overlay/byte_buf.loops, next_split and push_back replaced): the contract is ASSUMED by unit split_on_char; bounded evidence
+ * in unit split_bounded. */
 #define LIST_OK(l)                                                                                                     \
     (__CPROVER_is_fresh((l), sizeof(*(l))) && (l)->item_size >= sizeof(struct aws_byte_cursor) &&                      \
      ((l)->current_size == 0 ? (l)->data == NULL : __CPROVER_is_fresh((l)->data, (l)->current_size)))
